@@ -17,6 +17,9 @@ import (
 type Violation struct {
 	Oracle string `json:"oracle"`
 	Detail string `json:"detail"`
+	// Hint tells the shrinker where in a composite scenario the failure was
+	// (e.g. which injection point of an enumerated family).
+	Hint interface{} `json:"-"`
 }
 
 func (v *Violation) String() string { return v.Oracle + ": " + v.Detail }
@@ -42,6 +45,10 @@ type Env struct {
 
 	// set by the executor per scenario
 	NonTrivial bool
+	// ExtraEvals: executions beyond the first that one scenario performed
+	// (enumerated injection points); NTPoints: distinct non-trivial points.
+	ExtraEvals uint64
+	NTPoints   uint64
 	Quiet      bool // statistics are not collected (shrinking / replay)
 }
 
@@ -89,7 +96,7 @@ type Prop interface {
 	// Exec runs the scenario and evaluates the oracles.
 	Exec(sc interface{}, env *Env) *Violation
 	// Shrink proposes simpler scenarios (each a fresh value).
-	Shrink(sc interface{}) []interface{}
+	Shrink(sc interface{}, v *Violation) []interface{}
 }
 
 var registry = map[string]Prop{}
@@ -158,7 +165,7 @@ func Minimise(p Prop, sc interface{}, first *Violation, env *Env, maxExec int) (
 	n := 0
 	for progress := true; progress && n < maxExec; {
 		progress = false
-		for _, cand := range p.Shrink(cur) {
+		for _, cand := range p.Shrink(cur, curV) {
 			if n >= maxExec {
 				break
 			}
